@@ -77,6 +77,8 @@ def event_values(k, fraction):
     ms = T0_MS + STEP_MS * k + (FRACS_MS[k % 8] if fraction else 0)
     if k % 5 == 3:
         ms = -ms            # every fifth event lies before 1970 (mirrored instant, with its fraction)
+    if k == 2:
+        ms = 0              # the third event of every file is AT the epoch (origin time 0 is a time like any other)
     lat = (3000 + 13 * (k % 4000)) / 100
     lon = (-12000 + 37 * (k % 4000)) / 1000
     depth = (10 + 55 * (k % 4000)) / 10
@@ -115,6 +117,9 @@ def time_string(ms, fraction):
     return s
 
 
+_STYLE = ['lf']        # row style of the files of the current case: 'lf' | 'crlf' (what csv.writer and write_ascii produce) | 'quoted'
+
+
 def build_file(groups, header, fraction, blank, swap=None):
     """-> (text, expected catalogs, line meta [(cid, is_placeholder)], n_catalogs).
 
@@ -134,8 +139,9 @@ def build_file(groups, header, fraction, blank, swap=None):
             eid, ms, lat, lon, depth, mag = event_values(k, fraction)
             k += 1
             assert float_path_is_exact(ms), ms
-            rows.append('%r,%r,%r,%s,%r,%d,%s' % (lon, lat, mag, time_string(ms, fraction), depth, cid,
-                                                  '' if blank else eid))
+            q = '"%s"' if _STYLE[0] == 'quoted' else '%s'
+            rows.append('%r,%r,%r,%s,%r,%d,%s' % (lon, lat, mag, q % time_string(ms, fraction), depth, cid,
+                                                  '' if blank else q % eid))
             meta.append((cid, False))
             expected[cid].append(('' if blank else eid, ms, lat, lon, depth, mag))
         blocks.append((rows, meta))
@@ -146,7 +152,8 @@ def build_file(groups, header, fraction, blank, swap=None):
     for rows, m in blocks:
         lines.extend(rows)
         meta.extend(m)
-    return '\n'.join(lines) + '\n', expected, meta, n
+    eol = '\r\n' if _STYLE[0] == 'crlf' else '\n'
+    return eol.join(lines) + eol, expected, meta, n
 
 
 def pending_class(p):
@@ -261,6 +268,11 @@ def _cases(tier, seed):
     for n in range(1, 6):
         for chunk in _chunks(shapes(n, 2), 12):
             yield dict(kind='enum', n=n, shapes=chunk, variants='all', trace=True)
+    # ---- the same files with CRLF row endings (what csv.writer and CSEPCatalog.write_ascii produce) and with quoted text fields
+    for style in ('crlf', 'quoted'):
+        for n in range(1, 5):
+            for chunk in _chunks(shapes(n, 2), 24):
+                yield dict(kind='enum', n=n, shapes=chunk, variants='all', trace=False, style=style)
     # ---- one step beyond the bound: n = 6 (quick: header off/on with fractional times and ids; thorough: all variants)
     for chunk in _chunks(shapes(6, 2), 24 if tier == 'quick' else 12):
         yield dict(kind='enum', n=6, shapes=chunk, variants='two' if tier == 'quick' else 'all', trace=True)
@@ -459,7 +471,7 @@ def judge_file(groups, header, fraction, blank, swap, st, trace=False, n_key=Non
     text, expected, meta, n = build_file(groups, header, fraction, blank, swap)
     path = _write(text)
     single = dict(kind='single', groups=[list(g) for g in groups], header=header, fraction=fraction, blank=blank,
-                  swap=swap)
+                  swap=swap, style=_STYLE[0])
     var = 'header=%s,fraction=%s,blank_id=%s' % (header, fraction, blank)
     st['states'] += 1
     st['counters']['times_verified_exact_by_reference'] += sum(nev for _, nev in groups)
@@ -558,6 +570,7 @@ def run_file_family(groups, st, variants, trace, n_key, swaps='all'):
 def run_case(case):
     st = new_state()
     kind = case['kind']
+    _STYLE[0] = case.get('style', 'lf')
     sample = None
     if kind == 'n0':
         # outside the property text: observed, not judged
